@@ -226,12 +226,12 @@ PROPS["C04"] = {
     "jobs": [OBJ_LAYOUT],
     "extra_phases": [_phase_expander],
     "accept": lambda job, cls, site, msg: cls.startswith("layout."),
-    "rule": "expander part: one evaluation = one run of the real expander (cglue-gen as a library) over the corpus definitions under one process hash seed or one permutation of the trait listing order, its layout projection (repr(C) structs with field names and types in order, vtable default initialisers) compared with the reference; object part: one evaluation = one generated plan whose created group objects are read as raw words",
+    "rule": "expander part: one evaluation = one run of the real expander (cglue-gen as a library) over the corpus definitions under one process hash seed or one permutation of the trait listing order, its layout projection (repr(C) structs with field names and types in order, vtable default initialisers) compared with the reference; object part: one evaluation = one generated plan whose created group objects are read as raw words, preceded by the concrete-versus-opaque comparison of eight freshly built objects",
     "real": ["cglue-gen (gen_trait, TraitGroup::create_group, TraitGroupImpl::implement_group) linked from /repo and run as a process", "generated group objects read as raw words (objsim)"],
     "stub": ["getrandom (shim: hash seed = f(SIMRAND_SEED))"],
     "assumptions": COMMON_ASSUMPTIONS + ["the projection is deliberately narrower than token-stream equality: the expander legitimately emits items and impl generics in hash order, which changes no layout",
                                          "the 'both sides of a plugin boundary' clause needs the separately compiled module of C05 and is not covered here",
-                                         "size/align/bit-pattern equality of opaque and concrete forms is only covered through the objects behaving correctly after into_opaque (C01/C06), not by a direct byte comparison"],
+                                         "size/align/bit-pattern equality of opaque and concrete forms is read directly for eight object shapes per run (single-trait objects and groups; Box, &mut and CArcSome instances; no, plain, reference-counted and type-erased reference-counted context), and otherwise covered through the objects behaving correctly after into_opaque (C01/C06)"],
 }
 
 
